@@ -144,6 +144,11 @@ func (m *EndpointManager) CleanupOrphaned(activeEndpoints map[string]bool) {
 
 	for url := range m.endpointStates {
 		if !activeEndpoints[url] {
+			// an endpoint without models is exactly what a failing endpoint looks like: a breaker
+			// that has tripped keeps guarding it until it has closed again, housekeeping or not
+			if cb, exists := m.circuitBreakers[url]; exists && cb.GetState() != CircuitClosed {
+				continue
+			}
 			delete(m.endpointStates, url)
 			delete(m.endpointFailures, url)
 			delete(m.lastEndpointCheck, url)
